@@ -29,7 +29,7 @@ EXHAUSTIVE = {
 }
 TRUSTED = [
     "not modelled (R): the PQ-tree code of consecutive_ones.py (reorder_sets, P/Q.set_contiguous, simplify, flatten): "
-    "compared with the verified reference c1p_decide while the number of columns is <= 7 and through the verified "
+    "compared with the verified reference c1p_decide while the number of columns is <= 8 and through the verified "
     "checker c1p_check at every size",
     "floats of is_dichotomous_euclidean are converted exactly with fractions.Fraction (positions are halves of small "
     "integers, exact in IEEE double)",
@@ -45,7 +45,7 @@ ASSUMPTIONS = [
 ]
 TIMEOUT_S = 20.0
 CHUNK = 60
-REF_MAX = 7          # reference deciders enumerate permutations of at most this many columns / alternatives / ballots
+REF_MAX = 8          # reference deciders enumerate permutations of at most this many columns / alternatives / ballots
 
 DOMAINS = ("ci", "cei", "vi", "vei", "wsc", "de", "part", "part2")
 CAND = ("ci", "cei", "de")          # permuted dimension = alternatives
@@ -106,6 +106,37 @@ def _planted_matrix(rng, nr, nc):
             r, c_ = rng.randrange(nr), rng.randrange(nc)
             rows[r][c_] ^= 1
     return rows, (hidden if flips == 0 else None)
+
+
+def _block_matrix(rng, nc):
+    """columns grouped into blocks (one all-ones row per block, sometimes rows joining neighbouring blocks: nested
+    P/Q structure in the PQ-tree), plus one or two rows that cut through two or three blocks"""
+    cols = list(range(nc))
+    rng.shuffle(cols)
+    g = rng.randint(2, max(2, min(4, nc // 2)))
+    sizes = [2] * g if 2 * g <= nc else [1] * g
+    for _ in range(nc - sum(sizes)):
+        sizes[rng.randrange(g)] += 1
+    blocks, at = [], 0
+    for sz in sizes:
+        blocks.append(cols[at:at + sz])
+        at += sz
+    rows = []
+    for b in blocks:
+        if len(b) >= 2 and rng.random() < 0.9:
+            rows.append(b)
+    for i in range(len(blocks) - 1):
+        if rng.random() < 0.2:
+            rows.append(blocks[i] + blocks[i + 1])
+    for _ in range(rng.choice([1, 1, 2])):
+        k = rng.randint(2, min(3, len(blocks)))
+        chosen = rng.sample(blocks, k) if rng.random() < 0.5 else blocks[:k]
+        row = []
+        for b in chosen:
+            row += rng.sample(b, rng.randint(1, max(1, len(b) - (rng.random() < 0.8))))
+        rows.append(row)
+    rng.shuffle(rows)
+    return [[int(j in r) for j in range(nc)] for r in rows]
 
 
 def _labels(rng, m):
@@ -257,6 +288,10 @@ def generate(tier, seed):
         else:
             rows, hidden = _planted_matrix(rng, nr, nc)
             out.append(_mcase(rows, nc, gen="planted", **({"planted": hidden} if hidden is not None else {})))
+    nblk = 1500 if quick else 15000
+    for i in range(nblk):
+        nc = rng.randint(4, 8)
+        out.append(_mcase(_block_matrix(rng, nc), nc, gen="blocks"))
     nbig = 60 if quick else 600
     for i in range(nbig):
         nr, nc = rng.randint(8, 40), rng.randint(8, 40)
@@ -439,7 +474,10 @@ def oracle_requests(c, r):
 
 def judge(c, r, mres):
     if not (isinstance(r, list) and len(r) == 2 and r[0] == 0):
-        return {"kind": "exception", "reason": "implementation raised: %r" % (r,)}
+        txt = r
+        if isinstance(r, list) and len(r) == 3 and r[0] == 1:
+            txt = "".join(chr(x) for x in r[2])
+        return {"kind": "exception", "reason": "implementation raised: %s" % (txt,)}
     ans = {lb: m for (lb, _, _), m in zip(_plan(c, r), mres)}
     val = r[1]
     v = val[0]
